@@ -118,3 +118,17 @@ package executor
 // resulting set T has T[k] exactly for the listed k) this gives T == S pointwise: initialising a fresh
 // chain from an exported genesis restores the pause set, and re-exporting enumerates the same set.
 //@ lemma[C17] enumRoundTripI32: forall S (Array Int Bool), k int :: enumFactsI32(S) ==> (S[k] <==> (exists j int :: 0 <= j && j < enumLenI32(S) && enumAtI32(S, j) == k))
+
+// ---------------------------------------------------------------------------------------------
+// Object invariant: the injected dependencies are present. Proved on the constructor (New ends in
+// Validate), protected by the scan typeinv#immutable (no allocation or field store outside New).
+// Panic freedom (C14, C11, C17) may rely on it for every non-nil *Executor.
+// ---------------------------------------------------------------------------------------------
+//@ macro executorWF(e) = e.logger != nil && e.eventService != nil && e.router != nil
+//@ typeinv Executor executorWF New SetRouter
+//@ func New(cdc, sb, logger, eventService) (result, err)
+//@   ensures[C11,C14,C17] err == nil ==> result != nil && executorWF(result)
+//   SetRouter is the one other function that stores to a field: it replaces the router by a non-nil one
+//@ func (e *Executor) SetRouter(r) (err)
+//@   modifies e.router, r.sealed
+//@   ensures[C11,C14,C17] e != nil ==> executorWF(e)
